@@ -402,7 +402,21 @@ def trcl_deck(rnd, force_sp=None):
     bud = gen.Budget(rnd, 3)
     r = bud.num('r', pre, positive=True, choices=[1, Fr(3, 2)])
     a = bud.num('a', pre, choices=[0, Fr(1, 2)])
-    kind = rnd.choice(['so', 'rpp', 'kz', 'cz', 'tz', 'two'])
+    kind = rnd.choice(['so', 'rpp', 'kz', 'cz', 'tz', 'two', 'tori2'])
+    if kind == 'tori2':
+        # the same torus card under two different tilts (TR numbers): two different surfaces, whatever the
+        # de-duplication thinks of their equal parameters
+        c6, s8 = Fr(3, 5), Fr(4, 5)
+        rx = [Fr(1), Fr(0), Fr(0), Fr(0), c6, s8, Fr(0), -s8, c6]
+        ry = [c6, Fr(0), -s8, Fr(0), Fr(1), Fr(0), s8, Fr(0), c6]
+        o = [bud.num('o', pre, choices=[0, 1]), Fr(0), Fr(0)]
+        d.trs[4] = (o + rx, False)
+        d.trs[5] = (o + (ry if rnd.random() < 0.7 else [Fr(1), Fr(0), Fr(0), Fr(0), c6, -s8, Fr(0), s8, c6]), False)
+        prm = [Fr(0), Fr(0), Fr(0), Fr(4), Fr(1), Fr(1)]
+        d.surfs = [dk.Surf(1, 'tz', prm, 4), dk.Surf(2, 'tz', list(prm), 5), dk.Surf(9, 'so', [Fr(20)])]
+        d.cells = [dk.Cell(1, ('s', -1), imp=1), dk.Cell(2, ('and', ('s', -2), ('s', 1)), imp=1),
+                   dk.Cell(3, ('and', ('s', 1), ('s', 2), ('s', -9)), imp=1), dk.Cell(4, ('s', 9), imp=0)]
+        return d, pre
     if kind == 'two':
         # two surfaces, listed on the cell card in the order 2, 1: the ids handed out to the moved surfaces
         # and the implicit numbers 1001, 1002 must not get mixed up
